@@ -279,11 +279,20 @@ func Minimise(eng Engine, res *RunResult, thorough bool, scratch string, budget 
 	same := func(r *RunResult) bool {
 		return r.Err == "" && r.Violation != nil && r.Violation.Property == res.Violation.Property && r.Violation.Invariant == res.Violation.Invariant
 	}
+	nondet := res.Violation.Invariant == "replica_divergence" || res.Violation.Invariant == "selection_differs_between_replicas"
 	try := func(tape []Choice) bool {
 		if time.Now().After(deadline) {
 			return false
 		}
 		r := eng.Run(RunOpts{Prop: res.Prop, Seed: res.Seed, Tape: tape, Thorough: thorough, Scratch: scratch, T: t})
+		if nondet && same(r) {
+			// a disagreement between replicas comes from nondeterminism inside the system under test and shows only with some
+			// probability: a shrunk tape is kept only if it shows it three times in a row, so that the replay file keeps a
+			// history in which the disagreement is likely
+			for i := 0; i < 2 && same(r); i++ {
+				r = eng.Run(RunOpts{Prop: res.Prop, Seed: res.Seed, Tape: tape, Thorough: thorough, Scratch: scratch, T: t})
+			}
+		}
 		if same(r) && len(r.Tape) <= len(best.Tape)+0 {
 			best = r
 			return true
